@@ -1,5 +1,7 @@
 import Ruint.Lemmas.BitsRev
 import Ruint.Lemmas.GenBits
+import Ruint.Lemmas.GenBitsWrap
+import Ruint.Lemmas.GenBitsIter
 import Mathlib.Data.Nat.Size
 
 /-!
@@ -341,5 +343,32 @@ theorem gen_byte_len_eq (bits : ℕ) (hN : nlimbs bits < 2 ^ 57) (a : List ℕ) 
     (hf : nlimbs bits < f) :
     Ruint.Gen.uint_byte_len f bits (nlimbs bits) a = byteLen bits a :=
   Ruint.GenBits.byte_len_eq bits hN a ha f hf
+
+theorem gen_is_power_of_two_eq (bits : ℕ) (hN : nlimbs bits < 2 ^ 57) (a : List ℕ) (ha : Canon bits a) :
+    Ruint.Gen.uint_is_power_of_two (nlimbs bits + 1) bits (nlimbs bits) a = isPowerOfTwo a :=
+  Ruint.GenBitsWrap.is_power_of_two_eq bits hN a ha
+
+/-- `checked_next_power_of_two` of `src/special.rs` as generated (`is_power_of_two`, `bit_len`, `Self::ONE << exp`) -/
+theorem gen_checked_next_power_of_two_eq (bits : ℕ) (hN : nlimbs bits < 2 ^ 57) (a : List ℕ) (ha : Canon bits a) :
+    Ruint.Gen.uint_checked_next_power_of_two (nlimbs bits + 1) bits (nlimbs bits) a = checkedNextPowerOfTwo bits a :=
+  Ruint.GenBitsWrap.checked_next_power_of_two_eq bits hN a ha
+
+/-- `trailing_zeros`, `trailing_ones`, `most_significant_bits` as generated from `src/bits.rs` (iterator `position` /
+    `rposition` with their closures, `map_or`, `unwrap_or`, the `u64` intrinsics `trailing_zeros` / `trailing_ones` /
+    `leading_zeros` as the prelude's `Rs.ctz` / `Rs.clz`) equal the models; the driver runs them. -/
+theorem gen_trailing_eq (bits : ℕ) (hN : nlimbs bits < 2 ^ 57) (a : List ℕ) (ha : Canon bits a) :
+    Ruint.Gen.uint_trailing_zeros bits (nlimbs bits) a = trailingZeros bits a
+    ∧ Ruint.Gen.uint_trailing_ones bits (nlimbs bits) a = trailingOnes bits a :=
+  ⟨Ruint.GenBitsIter.trailing_zeros_eq bits hN a ha.1, Ruint.GenBitsIter.trailing_ones_eq bits hN a ha.1⟩
+
+theorem gen_most_significant_bits_eq (bits : ℕ) (hN : nlimbs bits < 2 ^ 57) (a : List ℕ) (ha : Canon bits a) :
+    Ruint.Gen.uint_most_significant_bits bits (nlimbs bits) a = mostSignificantBits a :=
+  Ruint.GenBitsIter.most_significant_bits_eq bits hN a ha.1 ha.2.1
+
+/-- `reverse_bits` as generated from `src/bits.rs` (`limbs.reverse()`, the `for limb in &mut self.limbs` loop over
+    `u64::reverse_bits`, the final `>>=`) equals the model; the driver runs it. -/
+theorem gen_reverse_bits_eq (bits : ℕ) (hN : nlimbs bits < 2 ^ 64) (a : List ℕ) (ha : Canon bits a) :
+    Ruint.Gen.uint_reverse_bits (nlimbs bits + 1) bits (nlimbs bits) a = reverseBits bits a :=
+  Ruint.GenBitsIter.reverse_bits_eq bits hN a ha.1
 
 end Ruint.C06
